@@ -159,12 +159,22 @@ def find_fn(src: str, name: str, impl_re: str | None = None, nth: int | None = N
     return {"start": item_start(m, kw), "kw": kw, "open": o, "close": c}
 
 
-def find_item(src: str, kind: str, name: str):
+def find_item(src: str, kind: str, name: str, within_mod: str | None = None):
     """kind in struct|enum|const|static|type.  Returns (start, end_exclusive) of the item
-    *without* its leading attributes/doc comments."""
+    *without* its leading attributes/doc comments.  within_mod: the item is a direct member of `mod NAME { .. }`."""
     m = mask(src)
-    hits = [mm for mm in re.finditer(r"\b%s\s+%s\b" % (kind, re.escape(name)), m)
-            if m[:mm.start()].count("{") == m[:mm.start()].count("}")]
+    base = 0
+    if within_mod:
+        mods = [mm for mm in re.finditer(r"\bmod\s+%s\s*\{" % re.escape(within_mod), m)]
+        if len(mods) != 1:
+            raise ScanError("mod %s: %d candidates" % (within_mod, len(mods)))
+        base = mods[0].end()
+        mend = match_brace(m, base - 1)
+        hits = [mm for mm in re.finditer(r"\b%s\s+%s\b" % (kind, re.escape(name)), m)
+                if base <= mm.start() < mend and m[base:mm.start()].count("{") == m[base:mm.start()].count("}")]
+    else:
+        hits = [mm for mm in re.finditer(r"\b%s\s+%s\b" % (kind, re.escape(name)), m)
+                if m[:mm.start()].count("{") == m[:mm.start()].count("}")]
     if len(hits) != 1:
         raise ScanError("%s %s: %d candidates" % (kind, name, len(hits)))
     kw = hits[0].start()
